@@ -345,10 +345,11 @@ Proof.
 Qed.
 
 (* ---------------------------------------------------------------------------------------------- *)
-(** * splineutil.c's bspline (guarded since fix 33ef56f) IS the right-continuous Cox–de Boor function with the
-      convention that a term with a vanishing denominator is dropped — for every knot sequence whatsoever: the C guard
-      [knots[i+n] != knots[i]] is [wdiv]'s test [t_{i+n} - t_i = 0], and (a*B)/d = (a/d)*B. No monotonicity, no index
-      bounds, nothing about the numerators is needed any more. *)
+(** * splineutil.c's bspline (guarded since fix 07dbb30, with the side flag since fix F30_1) IS the Cox–de Boor function
+      with the convention that a term with a vanishing denominator is dropped, right-continuous for [left = false] and
+      left-continuous for [left = true] — for every knot sequence whatsoever: the C guard [knots[i+n] != knots[i]] is
+      [wdiv]'s test [t_{i+n} - t_i = 0], and (a*B)/d = (a/d)*B. No monotonicity, no index bounds, nothing about the
+      numerators is needed. *)
 Lemma eqbK_sub (p q : K) : eqbK (sub p q) zero = eqbK p q.
 Proof.
   destruct (eqbK p q) eqn:E.
@@ -364,10 +365,11 @@ Proof.
   { intro Z0. apply (sub_zero_eq F) in Z0. subst q. rewrite (proj2 (eqbK_true F p p) eq_refl) in E. discriminate. }
   field. exact NZ.
 Qed.
-Lemma bspline_guarded_Bfun (kn : Z -> K) (x : K) : forall n i, bspline_guarded kn n x i = Bfun kn true n i x.
+Lemma bspline_guarded_Bfun (kn : Z -> K) (left : bool) (x : K) : forall n i,
+  bspline_guarded kn left n x i = Bfun kn (negb left) n i x.
 Proof.
   induction n as [|n IH]; intro i.
-  - reflexivity.
+  - destruct left; reflexivity.
   - cbn [bspline_guarded Bfun]. rewrite !IH. rewrite !guarded_term. reflexivity.
 Qed.
 
@@ -424,19 +426,27 @@ Lemma wfd_nsplines (d : @dimn A) : wfd d -> nsplines d = Z.to_nat (d_naxes d) /\
 Proof. intros [W1 [W2 _]]. unfold nsplines. rewrite W2. split; [reflexivity | lia]. Qed.
 
 Lemma mget_basis (d : @dimn A) (xs : list K) r k : r < length xs -> k < nsplines d ->
-  mget (basis_matrix d xs) r k = bspline_guarded (d_kn d) (d_order d) (nth r xs zero) (Z.of_nat k).
+  mget (basis_matrix d xs) r k =
+  bspline_guarded (d_kn d) (basis_left d (nth r xs zero)) (d_order d) (nth r xs zero) (Z.of_nat k).
 Proof.
   intros Hr Hk. unfold mget, basis_matrix.
-  set (f := fun x => map (fun col => bspline_guarded (d_kn d) (d_order d) x (Z.of_nat col)) (seq 0 (nsplines d))).
+  set (f := fun x => map (fun col => bspline_guarded (d_kn d) (basis_left d x) (d_order d) x (Z.of_nat col)) (seq 0 (nsplines d))).
   rewrite (nth_indep (map f xs) [] (f zero)) by (rewrite map_length; exact Hr). rewrite map_nth. unfold f.
-  set (g := fun col => bspline_guarded (d_kn d) (d_order d) (nth r xs zero) (Z.of_nat col)).
+  set (g := fun col => bspline_guarded (d_kn d) (basis_left d (nth r xs zero)) (d_order d) (nth r xs zero) (Z.of_nat col)).
   rewrite (nth_indep (map g (seq 0 (nsplines d))) zero (g 0)) by (rewrite map_length, seq_length; exact Hk).
   rewrite map_nth, seq_nth by exact Hk. reflexivity.
 Qed.
-Lemma basis_entry (d : @dimn A) (xs : list K) r k : wfd d -> r < length xs -> k < nsplines d ->
-  mget (basis_matrix d xs) r k = Bfun (d_kn d) true (d_order d) (Z.of_nat k) (nth r xs zero).
+(* the flag bsplinebasis passes, x >= knots[nknots-order-1], is the specification's own side: left-continuous exactly
+   where [BSpline.side_of] says so (nknots-order-1 = naxes in a well-formed dimension) *)
+Lemma basis_left_side (d : @dimn A) (x : K) : wfd d -> negb (basis_left d x) = side_of d x.
 Proof.
-  intros _ Hr Hk. rewrite mget_basis by assumption. apply bspline_guarded_Bfun.
+  intros Wd. destruct (wfd_nsplines d Wd) as [Hns Hna]. unfold basis_left, side_of, geb.
+  rewrite Hns, Z2Nat.id by lia. symmetry. apply (OF_ltb_leb A F).
+Qed.
+Lemma basis_entry (d : @dimn A) (xs : list K) r k : wfd d -> r < length xs -> k < nsplines d ->
+  mget (basis_matrix d xs) r k = Bfun (d_kn d) (side_of d (nth r xs zero)) (d_order d) (Z.of_nat k) (nth r xs zero).
+Proof.
+  intros Wd Hr Hk. rewrite mget_basis by assumption. rewrite bspline_guarded_Bfun. rewrite (basis_left_side d _ Wd). reflexivity.
 Qed.
 
 (* ---------------------------------------------------------------------------------------------- *)
@@ -468,7 +478,7 @@ Fixpoint posZ (ds : list (@dimn A)) (m : list nat) : Z :=
 Lemma TSz_spec (cf : Z -> K) X : forall ds gs pre suf pr P,
   Forall wfd ds -> Forall2 (fun r (xs : list K) => r < length xs) suf gs -> length suf = length ds ->
   (forall ks, Forall2 (fun k d => k < nsplines d) ks ds -> X (pre ++ ks) = cf (P + posZ ds ks)%Z) ->
-  TSz X ds gs pre suf pr = tensor_sum_rc cf ds (grid_point gs suf) P pr.
+  TSz X ds gs pre suf pr = tensor_sum_grid cf ds (grid_point gs suf) P pr.
 Proof.
   induction ds as [|d ds IH]; intros gs pre suf pr P Hwf Hin Hlen HX.
   - destruct suf; [|discriminate]. assert (E : TSz X [] gs pre [] pr = mul pr (X (pre ++ []))) by (destruct gs; reflexivity).
@@ -476,7 +486,7 @@ Proof.
     destruct gs; reflexivity.
   - destruct suf as [|r suf]; [discriminate|]. inversion Hin as [|? xs ? gs' Hr Hin']; subst.
     inversion Hwf as [|? ? Wd Wds]; subst. destruct (wfd_nsplines d Wd) as [Hns Hna].
-    cbn [TSz grid_point tensor_sum_rc]. rewrite sum_range_nsum. rewrite <- Hns. apply nsum_ext. intros k Hk.
+    cbn [TSz grid_point tensor_sum_grid]. rewrite sum_range_nsum. rewrite <- Hns. apply nsum_ext. intros k Hk.
     rewrite (IH gs' (pre ++ [k]) suf _ (P + Z.of_nat k * d_stride d)%Z); [| exact Wds | exact Hin' | cbn [length] in Hlen; lia |].
     + rewrite (basis_entry d xs r k Wd Hr Hk). reflexivity.
     + intros ks Hks. rewrite <- app_assoc. cbn [app]. rewrite (HX (k :: ks)) by (constructor; assumption).
@@ -623,34 +633,36 @@ End GridEval.
 
 (* ---------------------------------------------------------------------------------------------- *)
 (** * agreement with pointwise evaluation (C01) *)
-Lemma tensor_rc_zero (cf : Z -> K) : forall ds xs pos, tensor_sum_rc cf ds xs pos zero = zero.
+Lemma tensor_grid_zero (cf : Z -> K) : forall ds xs pos, tensor_sum_grid cf ds xs pos zero = zero.
 Proof.
-  induction ds as [|d ds IH]; intros xs pos; [cbn [tensor_sum_rc]; ring|].
-  destruct xs as [|x xs]; [cbn [tensor_sum_rc]; ring|]. cbn [tensor_sum_rc].
+  induction ds as [|d ds IH]; intros xs pos; [cbn [tensor_sum_grid]; ring|].
+  destruct xs as [|x xs]; [cbn [tensor_sum_grid]; ring|]. cbn [tensor_sum_grid].
   apply (sum_range_zero F). intros i _. rewrite (mul_zero_l F). apply IH.
 Qed.
-Lemma rc_is_side (cf : Z -> K) : forall ds xs pos pr, Forall2 (fun d x => side_of d x = true) ds xs ->
-  tensor_sum cf ds xs (repeat O (length ds)) pos pr = tensor_sum_rc cf ds xs pos pr.
+(* the specification sum of grid evaluation IS the specification sum of pointwise evaluation (C01's [spline_spec], which
+   merely skips vanishing factors): same Cox–de Boor functions, same one-sided convention, in every dimension *)
+Lemma grid_is_tensor_sum (cf : Z -> K) : forall ds xs pos pr, length xs = length ds ->
+  tensor_sum cf ds xs (repeat O (length ds)) pos pr = tensor_sum_grid cf ds xs pos pr.
 Proof.
-  induction ds as [|d ds IH]; intros xs pos pr H; inversion H as [|? x ? xs' Hs H']; subst; [reflexivity|].
-  cbn [length repeat tensor_sum tensor_sum_rc]. first [apply (sum_range_ext F) | apply sum_range_ext]. intros i _. cbv zeta.
-  rewrite Hs. cbn [dBfun].
-  destruct (eqbK (Bfun (d_kn d) true (d_order d) i x) zero) eqn:E.
-  - apply (eqbK_true F) in E. rewrite E, (mul_zero_r F), tensor_rc_zero. reflexivity.
-  - apply IH. exact H'.
+  induction ds as [|d ds IH]; intros xs pos pr Hlen; destruct xs as [|x xs]; try discriminate; [reflexivity|].
+  cbn [length repeat tensor_sum tensor_sum_grid]. first [apply (sum_range_ext F) | apply sum_range_ext]. intros i _. cbv zeta.
+  cbn [dBfun].
+  destruct (eqbK (Bfun (d_kn d) (side_of d x) (d_order d) i x) zero) eqn:E.
+  - apply (eqbK_true F) in E. rewrite E, (mul_zero_r F), tensor_grid_zero. reflexivity.
+  - apply IH. cbn [length] in Hlen. lia.
 Qed.
+Lemma grid_is_spline_spec (t : @table A) (xs : list K) : length xs = length (dims t) ->
+  grid_spec t xs = spline_spec t xs (repeat O (ndim_of t)).
+Proof. intro Hlen. unfold spline_spec, grid_spec, ndim_of. symmetry. apply grid_is_tensor_sum. exact Hlen. Qed.
 
 Theorem grid_spec_pointwise (t : @table A) (xs : list K) (cs : list Z) :
   dims t <> [] -> Forall wfd (dims t) -> nth (ndim_of t - 1) (strides_of t) 0%Z = 1%Z -> length xs = length (dims t) ->
   searchcenters t xs = CFound cs ->
-  Forall2 (fun d x => side_of d x = true) (dims t) xs ->           (* x_d < knots_d[naxes_d] in every dimension *)
+  Forall2 eval_regular (dims t) xs ->            (* C01's hypothesis: the fully supported range is not the single point x_d *)
   grid_spec t xs = ndsplineeval t xs cs 0.
 Proof.
-  intros Hne Hwf Hrow Hlen Hsc Hside.
-  rewrite (eval_is_tensor_sum F t xs cs Hne Hwf Hrow Hlen Hsc).
-  - unfold spline_spec, grid_spec, ndim_of. rewrite rc_is_side by exact Hside. reflexivity.
-  - clear - Hside F. induction Hside as [|d x ds xs' Hs H IH]; constructor; [|exact IH].
-    unfold eval_regular. intro Hle. exfalso. unfold side_of in Hs. exact (OFieldKit.lt_not_le F _ _ Hs Hle).
+  intros Hne Hwf Hrow Hlen Hsc Hreg.
+  rewrite (eval_is_tensor_sum F t xs cs Hne Hwf Hrow Hlen Hsc Hreg). apply grid_is_spline_spec. exact Hlen.
 Qed.
 
 Lemma RM_last_stride ds s : RM ds s -> ds <> [] -> nth (length ds - 1) (map d_stride ds) 0%Z = 1%Z.
@@ -667,15 +679,33 @@ Theorem grideval_agrees_pointwise (t : @table A) (grids : list (list K)) (s : Z)
   Forall wfd (dims t) -> RM (dims t) s -> Forall (fun xs : list K => xs <> []) grids -> grideval t grids = GOk a ->
   forall g cs, grid_in g grids ->
   searchcenters t (grid_point grids g) = CFound cs ->
-  Forall2 (fun d x => side_of d x = true) (dims t) (grid_point grids g) ->
+  Forall2 eval_regular (dims t) (grid_point grids g) ->
   nd_get a g = ndsplineeval t (grid_point grids g) cs 0.
 Proof.
-  intros Hwf HRM Hgne Hev g cs Hg Hsc Hside.
+  intros Hwf HRM Hgne Hev g cs Hg Hsc Hreg.
   destruct (grideval_inv t grids a Hev) as [Hne [Hlen _]].
   rewrite (grideval_spec t grids s a Hwf HRM Hgne Hev g Hg).
   apply grid_spec_pointwise; try assumption.
   - unfold ndim_of, strides_of. apply (RM_last_stride _ _ HRM Hne).
   - rewrite grid_point_length by exact Hg. exact Hlen.
+Qed.
+(* ... in particular on every table whose fully supported range has positive width in every dimension (a condition on the
+   table alone, C01's [full_support_nonempty]: knots[order] < knots[naxes]) *)
+Theorem grideval_agrees_pointwise_nondegenerate (t : @table A) (grids : list (list K)) (s : Z) (a : @ndsparse A) :
+  Forall wfd (dims t) -> RM (dims t) s -> Forall (fun xs : list K => xs <> []) grids -> grideval t grids = GOk a ->
+  Forall full_support_nonempty (dims t) ->
+  forall g cs, grid_in g grids ->
+  searchcenters t (grid_point grids g) = CFound cs ->
+  nd_get a g = ndsplineeval t (grid_point grids g) cs 0.
+Proof.
+  intros Hwf HRM Hgne Hev Hnd g cs Hg Hsc.
+  apply (grideval_agrees_pointwise t grids s a Hwf HRM Hgne Hev g cs Hg Hsc).
+  destruct (grideval_inv t grids a Hev) as [_ [Hlen _]].
+  pose proof (grid_point_length g grids Hg) as Hgl. rewrite Hlen in Hgl.
+  clear - Hnd Hgl F. revert Hgl. generalize (grid_point grids g) as xs.
+  induction Hnd as [|d ds Hd Hds IH]; intros [|x xs] Hl; try discriminate; constructor.
+  - apply (nonempty_regular F). exact Hd.
+  - apply IH. cbn [length] in Hl. lia.
 Qed.
 
 End Sums.
